@@ -23,6 +23,7 @@ import (
 	"github.com/ansible/receptor/pkg/randstr"
 	"github.com/ansible/receptor/pkg/tickrunner"
 	"github.com/ansible/receptor/pkg/utils"
+	"github.com/ansible/receptor/pkg/verifhook"
 	priorityQueue "github.com/jupp0r/go-priority-queue"
 	"github.com/minio/highwayhash"
 )
@@ -1513,6 +1514,7 @@ func (s *Netceptor) handleRoutingUpdate(ri *routingUpdate, recvConn string) {
 	}
 	s.seenUpdates[ri.UpdateID] = time.Now()
 	s.seenUpdatesLock.Unlock()
+	verifhook.Yield("route.seen", s.nodeID+"|"+recvConn+"|"+ri.UpdateID)
 	if ri.SuspectedDuplicate != 0 {
 		s.Logger.SanitizedWarning("Node %s with epoch %d sent update %s suspecting a duplicate node with epoch %d\n", ri.NodeID, ri.UpdateEpoch, ri.UpdateID, ri.SuspectedDuplicate)
 		s.knownNodeLock.Lock()
@@ -1584,6 +1586,7 @@ func (s *Netceptor) handleRoutingUpdate(ri *routingUpdate, recvConn string) {
 			}
 		}
 	}
+	verifhook.Yield("route.relay", s.nodeID+"|"+recvConn+"|"+ri.UpdateID)
 	ri.ForwardingNode = s.nodeID
 	message, err := s.translateStructToNetwork(MsgTypeRoute, ri)
 	if err != nil {
@@ -1701,6 +1704,7 @@ func (s *Netceptor) handleMessageData(md *MessageData) error {
 			return nil
 		}
 		s.listenerLock.RUnlock()
+		verifhook.Yield("deliver", md.ToService)
 		select {
 		case <-pc.context.Done():
 			close(pc.recvChan)
@@ -2059,6 +2063,7 @@ func (s *Netceptor) runProtocol(ctx context.Context, sess BackendSession, bi *Ba
 						ci.Cost = remoteNodeCost
 						connectionCost = remoteNodeCost
 					}
+					verifhook.Yield("handshake.check", remoteNodeID)
 					s.connLock.Lock()
 					for conn := range s.connections {
 						if remoteNodeID == conn {
@@ -2074,6 +2079,7 @@ func (s *Netceptor) runProtocol(ctx context.Context, sess BackendSession, bi *Ba
 					}
 					s.connections[remoteNodeID] = ci
 					s.connLock.Unlock()
+					verifhook.Yield("handshake.admitted", remoteNodeID)
 
 					// Establish the connection
 					select {
